@@ -593,6 +593,24 @@ pub fn gen_rect_any(rng: &mut Rng, lw: u32, lh: u32, max_visible: u64) -> Rect {
                 };
                 Rect { x: x.clamp(i32::MIN as i64, i32::MAX as i64) as i32, y: y.clamp(i32::MIN as i64, i32::MAX as i64) as i32, w: w as u32, h }
             }
+            3 if rng.coin() => {
+                // an edge at -65536*n (+-1): a truncating cast makes it look like 0
+                let n = 1 + rng.below(3) as i64;
+                let d = rng.range(-1, 1);
+                if rng.coin() {
+                    let y = -65536 * n + d;
+                    let x = rng.below(lw as u64) as i64;
+                    let w = 1 + rng.below((lw as u64 - x as u64).min(64)) as i64;
+                    let h = -y + 1 + rng.below(lh as u64 + 4) as i64;
+                    Rect { x: x as i32, y: y as i32, w: w as u32, h: h as u32 }
+                } else {
+                    let x = -65536 * n + d;
+                    let y = rng.below(lh as u64) as i64;
+                    let h = 1 + rng.below((lh as u64 - y as u64).min(64)) as i64;
+                    let w = -x + 1 + rng.below(lw as u64 + 4) as i64;
+                    Rect { x: x as i32, y: y as i32, w: w as u32, h: h as u32 }
+                }
+            }
             3 => Rect { x: i32::MIN, y: i32::MIN, w: 1 + rng.below(100) as u32, h: 1 + rng.below(100) as u32 },
             4 => Rect { x: i32::MAX - 50, y: rng.range(-5, lhi) as i32, w: 1 + rng.below(50) as u32, h: 1 + rng.below(50) as u32 },
             5 => Rect { x: 65536 + rng.range(-2, lwi) as i32, y: rng.range(0, lhi - 1) as i32, w: 1 + rng.below(20) as u32, h: 1 + rng.below(20) as u32 },
